@@ -209,6 +209,30 @@ def make_world(seed, jitter):
                             r.truth["class"] = "conforming-nagnag"
                             r.truth["nagnag_side"] = side
                 pos = p + rng.randint(2500, 3500)
+    # a gene with two consecutive SHORT internal exons (90 bp each, below the 100 bp a misaligned exon may have) and reads whose single intron replaces
+    # the three introns around them, each short exon glued onto its neighbour (total intron length unchanged): 180 exon bases are displaced
+    from vlib.world import Gene, Transcript
+    for ci, chrom in enumerate(w.chrom_order):
+        p0 = max([g_.end for g_ in w.genes if g_.chrom == chrom] + [1000]) + 2500
+        if p0 + 6500 > w.chrom_len(chrom):
+            continue
+        strand = "+-"[ci % 2]
+        gid = "MRG%d" % (ci + 1)
+        t1 = [(p0 + 1, p0 + 300), (p0 + 1301, p0 + 1390), (p0 + 2391, p0 + 2480), (p0 + 3481, p0 + 3800)]
+        t2 = [t1[0], t1[1], t1[3]]
+        g = Gene(gid, chrom, strand)
+        g.transcripts.append(Transcript(gid + ".t1", gid, chrom, strand, t1, True, "two-short-internal-exons"))
+        g.transcripts.append(Transcript(gid + ".t2", gid, chrom, strand, t2, True, "two-short-internal-exons"))
+        for t in g.transcripts:
+            for intr in t.introns:
+                w.plant_sites(chrom, intr, strand)
+        w.genes.append(g)
+        for t in g.transcripts:
+            for _ in range(3):
+                r = w.make_read(chrom, list(t.exons), truth={"src": t.id, "class": "conforming", "mode": "full", "true_exons": list(t.exons), "strand": strand})
+        for q in range(3):
+            e2 = [(p0 + 1 + 10 * q, p0 + 390), (p0 + 3391, p0 + 3800 - 10 * q)]
+            w.make_read(chrom, e2, truth={"src": gid + ".t1", "class": "two-merged-exons", "true_exons": e2, "strand": strand})
     return w
 
 
@@ -311,7 +335,7 @@ def run(chk, scratch):
                     chk.violation("only-compatible-isoform-not-unique:%s" % mode, "%s: read %s has %s as its only compatible isoform, reported %s on %s" %
                                   (desc, rd.name, T.id, atype, sorted(reported)[:4]), wit)
             elif cls in ("skipped-exon", "extra-exon", "retained-intron", "shifted-site", "extended-start", "extended-end", "hidden-isoform",
-                         "extended-5prime-with-tail", "retained-terminal-intron", "end-inside-intron", "extra-exon-beyond-end") or cls.startswith("site-moved-20-30") \
+                         "extended-5prime-with-tail", "retained-terminal-intron", "end-inside-intron", "extra-exon-beyond-end", "two-merged-exons") or cls.startswith("site-moved-20-30") \
                     or cls.endswith("-150-280"):
                 if not overl:
                     continue
